@@ -138,8 +138,17 @@ def native_replay(exe, name, bs):
     hexs = "".join("%02x" % b for b in bs)
     p = subprocess.run([exe, name, hexs], stdout=subprocess.PIPE, stderr=subprocess.PIPE)
     out = p.stdout.decode("utf-8", "replace").strip().split("\n")[-1] if p.stdout else ""
+    if p.returncode < 0 or p.returncode >= 128:
+        out = "FAIL %s (the real code killed the process on this input: exit status %d; %s)" % (
+            name, p.returncode, p.stderr.decode("utf-8", "replace").strip().split("\n")[-1][:200])
     panic = re.findall(r"panicked at ([^\n]*)\n([^\n]*)", p.stderr.decode("utf-8", "replace"))
     return p.returncode, out, (panic[0] if panic else None)
+
+
+def failing_rc(rc):
+    """exit status of the replay binary that means 'the real code violates the executable contract on this input':
+    1 = contract assertion or unexpected panic; negative / 134 etc. = the process was killed (abort, allocation failure)"""
+    return rc == 1 or rc < 0 or rc >= 128
 
 
 def fuzz(exe, names, runs, seed, workers=12):
@@ -149,7 +158,19 @@ def fuzz(exe, names, runs, seed, workers=12):
 
     def one(n):
         p = subprocess.run([exe, "--fuzz", n, str(runs), str(seed)], stdout=subprocess.PIPE, stderr=subprocess.DEVNULL)
-        return n, p.stdout.decode()
+        out = p.stdout.decode()
+        if p.returncode not in (0, 1) or not re.search(r"^(ok|FAIL) ", out, re.M):
+            # the process died (abort / allocation failure / stack overflow: not a catchable panic). The search is
+            # deterministic, so run it again recording each input before it is executed; the last one recorded is the killer.
+            tr = exe + ".trace." + n
+            env = dict(os.environ, VERIF_FUZZ_TRACE=tr)
+            subprocess.run([exe, "--fuzz", n, str(runs), str(seed)], stdout=subprocess.DEVNULL, stderr=subprocess.DEVNULL, env=env)
+            try:
+                name, hexs = open(tr).read().split()
+                out = "FAIL %s %s\n" % (name, hexs)
+            except Exception:
+                out = ""
+        return n, out
     with concurrent.futures.ThreadPoolExecutor(max_workers=workers) as ex:
         for n, out in ex.map(one, names):
             for line in out.split("\n"):
@@ -165,7 +186,7 @@ def fuzz(exe, names, runs, seed, workers=12):
 def describe(exe, name, bs):
     rc, out, panic = native_replay(exe, name, bs)
     return {"harness": name, "input_bytes": bs, "input_hex": "".join("%02x" % b for b in bs),
-            "replayed_on_real_code": rc == 1, "replay_result": out, "failed_assertion": list(panic) if panic else None,
+            "replayed_on_real_code": failing_rc(rc), "replay_result": out, "failed_assertion": list(panic) if panic else None,
             "replay_cmd": "bin/check --replay <this file>"}
 
 
@@ -188,7 +209,7 @@ def search(prop, unit, violations, scratch, seed=1):
         src = "kani 0.68 / cbmc (bounded: all values of the small harness types), %d harnesses, %.0fs" % (len(knames), secs)
     for n, bs in found.items():
         rc, out, panic = native_replay(exe, n, bs)
-        if rc == 1:
+        if failing_rc(rc):
             return {"harness": n, "input_bytes": bs, "input_hex": "".join("%02x" % b for b in bs), "found_by": src,
                     "replayed_on_real_code": True, "replay_result": out, "failed_assertion": list(panic) if panic else None,
                     "replay_cmd": "bin/check --replay <this file>"}
@@ -213,6 +234,6 @@ def replay(cexd):
         print(out)
         if panic:
             print("panicked at", panic[0], panic[1])
-        return 1 if rc == 1 else 0
+        return 1 if failing_rc(rc) else 0
     finally:
         shutil.rmtree(scratch, ignore_errors=True)
